@@ -315,6 +315,33 @@ CORNERS = [
 ]
 
 
+def rank4_space(rng, n):
+  """Rank-4 lattices: the smallest shape on which two trusts can sit on disjoint feature pairs."""
+  out = []
+  for de in (1, -1):
+    for dt in (1, -1):
+      out.append(dict(sizes=[2, 2, 2, 2], monos=[1, 0, 1, 0], ew=[[0, 1, de]], tz=[[2, 3, dt]]))
+      out.append(dict(sizes=[2, 2, 2, 2], monos=[1, 1, 1, 0], ew=[[0, 3, de], [1, 3, de]], tz=[[2, 3, dt]]))
+  out.append(dict(sizes=[2, 2, 2, 2], monos=[1, 0, 1, 0], ew=[[0, 1, 1], [2, 3, 1]], tz=[[0, 1, 1], [2, 3, 1]]))
+  out.append(dict(sizes=[2, 3, 2, 2], monos=[1, 0, 1, 0], ew=[[0, 1, 1]], tz=[[2, 3, -1]]))
+  tries = 0
+  while len(out) < n and tries < 50 * n:
+    tries += 1
+    sizes = [rng.choice([2, 2, 3]) for _ in range(4)]
+    if sum(s == 3 for s in sizes) > 1:
+      continue
+    monos = [rng.choice([0, 1]) for _ in range(4)]
+    singles = [(m, c, d) for m in range(4) for c in range(4) for d in (1, -1) if m != c and monos[m] == 1]
+    if not singles:
+      continue
+    ew = rng.sample(singles, rng.choice([0, 1, 1, 2]))
+    tz = rng.sample(singles, rng.choice([0, 1, 1, 2]))
+    cfg = dict(sizes=sizes, monos=monos, ew=[list(t) for t in ew], tz=[list(t) for t in tz])
+    if (ew or tz) and valid(dict(cfg)):
+      out.append(cfg)
+  return out
+
+
 def configs(tier, rng):
   space = list(base_space(tier))
   if tier == 'quick':
@@ -327,7 +354,9 @@ def configs(tier, rng):
       if seen[key] < (2 if len(c['sizes']) < 3 else 1):
         seen[key] += 1
         picked.append(c)
-    space = picked
+    space = picked + rank4_space(rng, 30)
+  else:
+    space = space + rank4_space(rng, 400)
   jobs = []
   bkinds = ['none', 'min', 'max', 'both']
   for i, base in enumerate(space):
@@ -376,7 +405,7 @@ EVIDENCE = {
     'rule': ('one obligation = (function under contract, discrete configuration, contract clause, '
              'tensor element / unit); non-trivial = needed a solver call (not closed by the '
              'normal-form simplifier); distinct by (function, configuration, clause, path)'),
-    'bounds': 'rank <= 3, sizes <= 3 (quick) / one size-4 dimension (thorough), units <= 2, '
+    'bounds': 'rank <= 3 exhaustively over trust sets plus sampled rank-4 lattices (trusts on disjoint feature pairs), sizes <= 3 (quick) / one size-4 dimension (thorough), units <= 2, '
               '<= 2 Edgeworth and <= 2 trapezoid trusts, bounds in {none,min,max,both} symbolic',
     'exhaustive_tiers': {'quick': False, 'thorough': True},
     'trusted_base': [
